@@ -52,3 +52,19 @@ def crlf_rewritten_as_lf(ename, case, fail, obs):
         return ob == oa
     except Exception:  # noqa: BLE001
         return False
+
+
+def prefix_collision_not_persisted(ename, case, fail, obs):
+    """KF-C13-1: with a hash-length so short that two stored files share the written prefix, persist() finds
+    two matches, swallows the HashError and leaves the referenced data unpersisted."""
+    if ename != "external" or fail[1] != "referenced_is_persisted":
+        return False
+    if case.get("hash_length", 12) > 2:
+        return False
+    import re
+    m = re.search(r"reference (\w+)\*\.txt was written .*storage \[(.*)\]", fail[2])
+    if not m:
+        return False
+    pre = m.group(1)
+    names = re.findall(r"'([0-9a-f]+)(?:-new)?\.txt'", m.group(2))
+    return sum(1 for n in names if n.startswith(pre)) >= 2
